@@ -1,5 +1,5 @@
 (* Properties/C16.v — Events are emitted exactly once per occurrence and tell a consistent story. *)
-From FS Require Import Model.Exec Proofs.ExecProofs Proofs.ExecStats Proofs.BreakerProofs Proofs.ExecRetryEvents Proofs.ExecCheckerProofs Proofs.ExecEventsProofs Spec.Verdict Proofs.ExecVerdictEvents Corr.C16.
+From FS Require Import Model.Exec Proofs.ExecProofs Proofs.ExecStats Proofs.BreakerProofs Proofs.ExecRetryEvents Proofs.ExecCheckerProofs Proofs.ExecEventsProofs Spec.Verdict Proofs.ExecVerdictEvents Proofs.ExecExhaustion Corr.C16.
 
 (* executor: one success-or-failure event matching SuccessAll, then one done event, both carrying the returned result *)
 Theorem C16_completion_events : forall fuel stack w,
@@ -147,3 +147,20 @@ Theorem C16_breaker_events_form_path : forall S (I : stats_impl S) c h s,
   events_path (state_code s) (flat_map ob_events (brun I c s h)) = Some (state_code (bfinal I c s h)).
 Proof. exact @history_events_form_path. Qed.
 Print Assumptions C16_breaker_events_form_path.
+
+(* exhaustion is final: in the complete log of any execution through any stack, at every position, once a retry policy has
+   logged OnRetriesExceeded it logs nothing more -- no verdict, no OnAbort, no second OnRetriesExceeded, no retry scheduled or
+   started -- however often the policies around it re-enter it ([xstk pos] runs the automaton of Spec/Verdict.v over the log) *)
+Theorem C16_exhaustion_is_final : forall fuel stack now ext key b l k c script pos,
+  xstk pos (kps (drain (snd (execute fuel stack (fresh_world now ext key b l k c script))))) <> None.
+Proof. exact exhaustion_is_final. Qed.
+Print Assumptions C16_exhaustion_is_final.
+
+(* used by the correspondence: the executable form accepts every model log *)
+Theorem C16_exhaustion_checker_accepts_model : forall fuel stack now ext key b l k c script lsn mask q o,
+  q_stack q = stack ->
+  x_events o = filter (blsn_keeps mask) (filter (lsn_keeps lsn)
+     (rev (w_trace (drain (snd (execute fuel stack (fresh_world now ext key b l k c script))))))) ->
+  exhaustion_ok q o = true.
+Proof. exact exhaustion_checker_accepts_model. Qed.
+Print Assumptions C16_exhaustion_checker_accepts_model.
